@@ -2387,6 +2387,14 @@ func (self *LockDB) UnLock(serverProtocol ServerProtocol, command *protocol.Lock
 				_ = serverProtocol.FreeLockCommand(command)
 				return nil
 			}
+			if currentLock.ackCount != 0xff {
+				lockManager.state.UnlockErrorCount++
+				lockManager.glock.Unlock()
+
+				_ = serverProtocol.ProcessLockResultCommand(command, protocol.RESULT_LOCK_ACK_WAITING, uint16(lockManager.locked), currentLock.locked, lockManager.GetLockData())
+				_ = serverProtocol.FreeLockCommand(command)
+				return nil
+			}
 
 			command.LockId = currentLock.command.LockId
 			command.Expried = currentLock.command.Expried
